@@ -378,6 +378,22 @@ def rule_cmpkind(ctx):
         yield ob(R, f, "%s:offset-tolerance" % q, good, "offset tolerance is max(offset_ratio * reference duration, offset_min_tolerance) - 'whichever is greater'")
 
 
+def rule_emptyvalue(ctx):
+    """Special-value exits of four melody scores: an empty array or a reference without voiced (unvoiced) frames gives 0
+    (with a warning), never another constant. Watch list of four functions, literal exits only; found by the special-value
+    sweep after seed C16j-1. A score written without literal exits emits fewer obligations (floor 4)."""
+    R = "C04.EMPTYVALUE"
+    # voicing_recall is not on the list: a reference without voiced frames has recall 1 there (its exits are decided by C02)
+    for q in ("melody.voicing_false_alarm", "melody.raw_pitch_accuracy", "melody.raw_chroma_accuracy", "melody.overall_accuracy"):
+        f = ctx.program.func(q, R)
+        s = ctx.S.get(q)
+        k = 0
+        for r in s.returns:
+            if is_lit(r.term):
+                k += 1
+                yield ob(R, f, "%s:special-value-exit#%d" % (q, k), tm.is_const(r.term, 0), "the exit for an empty input / a reference without (un)voiced frames returns 0" if tm.is_const(r.term, 0) else "the special-value exit returns %s; an empty input or a reference without (un)voiced frames scores 0" % tm.show(r.term, 2), node=r.node)
+
+
 def rule_tempoform(ctx):
     R = "C04.TEMPOFORM"
     f = ctx.program.func("tempo.detection", R)
@@ -962,6 +978,7 @@ RULES = [
     ("C04.KEYTABLE", 8, rule_keytable),
     ("C04.ROUNDING", 6, rule_rounding),
     ("C04.CMPKIND", 11, rule_cmpkind),
+    ("C04.EMPTYVALUE", 4, rule_emptyvalue),
     ("C04.TEMPOFORM", 2, rule_tempoform),
     ("C04.FFORM", 6, rule_shared),
     ("C04.CONTTHRESH", 3, rule_contthresh),
